@@ -9,7 +9,7 @@
    it is the oracle `ho` (None = "order-dependent tie, abort"); theorems quantify over every oracle.
    Recursion choose_x <-> choose_y is bounded in the code only by the growth of `broken` inside the tour's edge set;
    here it carries fuel (result Fuel when exhausted; lkh_fuel is proved/validated sufficient).
-   Tour::try_path on an empty path would panic in Rust (self.path[0]); unreachable (improve's loops are empty) - None here.
+   Tour::try_path starts the rebuilt path at `*self.path.first()?` (None on an empty path).
    Entry points for the correspondence: run_lkh (strict oracle).  Checker: check_lkh.  No proofs here. *)
 From VRP Require Import Base.Tac.
 Local Open Scope nat_scope.
@@ -121,15 +121,11 @@ Definition try_path (t : tour) (broken joined : eset) : option (list nat) :=
   if length edges <? length (tpath t) then None else
   match tpath t with
   | [] => None
-  | p0 :: _ =>
-    match index_of p0 (tpath t) with       (* start_node: an INDEX (always 0) that is then used as a node id *)
-    | None => None
-    | Some start =>
-      let succs := walk (length edges) edges start [] in
-      if negb (length succs =? length (tpath t)) then None else
-      let nt := follow (S (length succs)) succs start [start] [start] in
-      if length nt =? length (tpath t) then Some nt else None
-    end
+  | start :: _ =>                        (* `*self.path.first()?` : the tour's first node *)
+    let succs := walk (length edges) edges start [] in
+    if negb (length succs =? length (tpath t)) then None else
+    let nt := follow (S (length succs)) succs start [start] [start] in
+    if length nt =? length (tpath t) then Some nt else None
   end.
 
 (* ---------------------------------------------------------------- KOpt *)
